@@ -1,11 +1,11 @@
 package rules
 
 import (
-	"os"
 	"fmt"
 	"go/constant"
 	"go/token"
 	"go/types"
+	"os"
 	"sort"
 	"strings"
 	"verif/checker/core"
